@@ -373,6 +373,8 @@ def gen_case(rng: random.Random, tier: str) -> dict:
         # a thread parked in the middle of building shared state stays parked while another one runs to completion
         d = rng.choice([1, 1, 2, 3])
         case["change_points"] = sorted({int(10 ** rng.uniform(0, 4.3)) for _ in range(d)})
+        if case.get("cold_modules") and rng.random() < 0.6:
+            case["change_points"] = [rng.randrange(1, 400)]  # first-use work happens in the first few hundred steps of a task
     return case
 
 
